@@ -11,6 +11,24 @@
 
 #define NSLOT 4
 typedef struct { unsigned char *b; size_t len, cap; } mb_t;
+/* positions and counts can be given symbolically (flag argument == 1) and are then resolved against the length the object has
+   when the operation runs: the generator's own idea of that length drifts after trims, splices and failed reads */
+static long long sym_pos(long code, long long L)
+{
+    switch (code % 12) {
+    case 0: return -L - 2; case 1: return -L - 1; case 2: return -L; case 3: return -1; case 4: return 0; case 5: return 1;
+    case 6: return L / 2; case 7: return L - 1; case 8: return L; case 9: return L + 1; case 10: return L ? (code / 12) % L : 0; default: return 2000000000LL;
+    }
+}
+static long long sym_cnt(long code, long long L, long long idx)
+{
+    long long at = idx < 0 ? idx + L : idx, rest = L - at;
+    switch (code % 10) {
+    case 0: return 0; case 1: return 1; case 2: return rest; case 3: return rest + 1; case 4: return rest - 1; case 5: return -1;
+    case 6: return -rest; case 7: return (code / 10) % 5; case 8: return rest > 0 ? (code / 10) % (rest + 1) : 0; default: return 2000000000LL;
+    }
+}
+
 static spif_mbuff_t objs[NSLOT];
 static mb_t mod[NSLOT];
 
@@ -80,12 +98,32 @@ static void exec(const plan_t *p)
         spif_mbuff_t self;
         mb_t *m;
         unsigned char *arg = NULL;                   /* exact-size simulated block holding o->s */
+        size_t alen;
         R.cur_op = o; R.cur_op_index = i; R.op_steps = 0;
         if (s < 0 || s >= NSLOT) sim_skip("bad-slot");
         self = objs[s];
         m = &mod[s];
         simfd_hard_error = 0; simfd_eagain = 0;
         if (o->has_s) { arg = sim_malloc(o->slen); if (o->slen) memcpy(arg, o->s, o->slen); }
+        alen = o->slen;
+        if (self && o->na > 1 && o->a[1] > 0 && (!strcmp(k, "cmp_ptr") || !strcmp(k, "ncmp_ptr") || !strcmp(k, "find_ptr"))) {
+            /* bytes related to the object's own: 1 equal, 2 a proper beginning, 3 one byte longer, 4 last byte changed, 6 a piece from inside, 7 first byte changed */
+            long code = o->a[1] % 8, salt = o->a[1] / 8;
+            size_t L = m->len, n = L, from = 0;
+            if (code == 2) n = L ? (size_t)salt % L : 0;
+            else if (code == 3) n = L + 1;
+            else if (code == 6 && L) { from = (size_t)salt % L; n = 1 + (size_t)(salt / 7) % 6; if (from + n > L) n = L - from; }
+            if (arg) sim_free(arg);
+            arg = sim_malloc(n);
+            if (code == 3) { if (L) memcpy(arg, m->b, L); arg[L] = (unsigned char)salt; }
+            else if (n) memcpy(arg, m->b + from, n);
+            if (code == 4 && n) arg[n - 1] ^= 1;
+            if (code == 7 && n) arg[0] ^= 1;
+            alen = n;
+            probe_hit("argument_related_to_object");
+        }
+        if (!o->has_s && o->na > 2 && o->a[2] > 0 && (!strcmp(k, "append_ptr") || !strcmp(k, "prepend_ptr") || !strcmp(k, "splice_ptr") || !strcmp(k, "cmp_ptr") || !strcmp(k, "find_ptr")))
+            { alen = (size_t)o->a[2] % 6000; probe_hit("null_pointer_with_a_length"); }          /* no bytes, but a length all the same */
         sa_set_tag(i + 1);
 
         if (!strncmp(k, "new", 3) || !strncmp(k, "init", 4)) {
@@ -145,6 +183,17 @@ static void exec(const plan_t *p)
                     if (o->slen > 4096) probe_hit("fd_multi_chunk");
                 }
             } else goto skip;
+            if (simfd_hard_error && (!strcmp(what, "_fp") || !strcmp(what, "_fd"))) {
+                /* the source failed: the constructor may give up, or keep what it had read -- a beginning of the data, nothing else */
+                spif_mbuff_t got = isnew ? made : (ok ? self : (spif_mbuff_t)NULL);
+                may_fail = 1;
+                probe_hit("source_read_error");
+                if (got && got->len > 0) {
+                    if ((size_t)got->len > m->len || !got->buff || !sa_readable(got->buff, (size_t)got->len) || memcmp(got->buff, m->b, (size_t)got->len))
+                        sim_fail("MISMATCH(bytes)", "after a read error the object holds %lld bytes that are not a beginning of the data", (long long)got->len);
+                    m->len = (size_t)got->len;
+                } else if (got) m_set(m, "", 0);
+            }
             if (isnew) {
                 if (!made) {
                     if (!may_fail) sim_fail("MISMATCH(constructor)", "%s returned NULL", k);
@@ -179,8 +228,8 @@ static void exec(const plan_t *p)
         } else if (!strcmp(k, "append_ptr") || !strcmp(k, "prepend_ptr")) {
             spif_bool_t b;
             if (!self->buff) probe_hit("append_on_empty");
-            if (k[0] == 'a') b = spif_mbuff_append_from_ptr(self, arg, (spif_memidx_t)o->slen);
-            else b = spif_mbuff_prepend_from_ptr(self, arg, (spif_memidx_t)o->slen);
+            if (k[0] == 'a') b = spif_mbuff_append_from_ptr(self, arg, (spif_memidx_t)alen);
+            else b = spif_mbuff_prepend_from_ptr(self, arg, (spif_memidx_t)alen);
             if (!arg) { if (b) sim_fail("MISMATCH(return)", "%s(NULL) returned TRUE", k); }
             else { if (!b) sim_fail("MISMATCH(return)", "%s returned FALSE", k); m_insert(m, k[0] == 'a' ? m->len : 0, arg, o->slen); }
         } else if (!strcmp(k, "clear")) {
@@ -203,7 +252,9 @@ static void exec(const plan_t *p)
             memmove(m->b, m->b + a, z - a);
             m->len = z - a;
         } else if (!strcmp(k, "splice") || !strcmp(k, "splice_ptr")) {
-            long long idx = o->a[1], cnt = o->a[2], L = (long long)m->len;
+            long long L = (long long)m->len;
+            int symb = o->na > 4 && o->a[4] == 1;
+            long long idx = symb ? sym_pos(o->a[1], L) : o->a[1], cnt = symb ? sym_cnt(o->a[2], L, idx) : o->a[2];
             const unsigned char *ins = NULL; size_t il = 0;
             unsigned char *selfcopy = NULL;
             spif_bool_t b;
@@ -217,7 +268,7 @@ static void exec(const plan_t *p)
                 b = viaclass ? (spif_bool_t)(long)VIA(splice)(self, (spif_memidx_t)idx, (spif_memidx_t)cnt, other) : spif_mbuff_splice(self, idx, cnt, other);
             } else {
                 if (arg) { ins = arg; il = o->slen; }
-                b = spif_mbuff_splice_from_ptr(self, idx, cnt, arg, (spif_memidx_t)o->slen);
+                b = spif_mbuff_splice_from_ptr(self, idx, cnt, arg, (spif_memidx_t)alen);
             }
             if (idx < 0) idx += L;
             expect_ok = idx >= 0 && idx < L;
@@ -232,11 +283,11 @@ static void exec(const plan_t *p)
             }
             free(selfcopy);
         } else if (!strcmp(k, "sprintf")) {
-            char out[256], sa[80];
+            static char out[20000], sa[16000];      /* (results of several kilobytes too) */
             int fid = (int)o->a[1], n;
             long iv = o->a[2];
             spif_bool_t b;
-            size_t sl = o->slen < 60 ? o->slen : 60;
+            size_t sl = o->slen < 15000 ? o->slen : 15000;
             memcpy(sa, o->s ? (const char *)o->s : "", sl); sa[sl] = 0;
             for (char *q = sa; *q; q++) if (*q == '%') *q = 'p';
             switch (fid) {
@@ -276,8 +327,8 @@ static void exec(const plan_t *p)
                 got = viaclass ? (long long)VIA(find)(self, other) : spif_mbuff_find(self, other);
                 if (!other) { if (got != -1) sim_fail("MISMATCH(query)", "find(NULL) returned %lld", got); goto after; }
             } else {
-                if (arg) { nd = arg; nl = o->slen; }
-                got = spif_mbuff_find_from_ptr(self, arg, (spif_memidx_t)o->slen);
+                if (arg) { nd = arg; nl = alen; }
+                got = spif_mbuff_find_from_ptr(self, arg, (spif_memidx_t)alen);
                 if (!arg) { if (got != -1) sim_fail("MISMATCH(query)", "find_from_ptr(NULL) returned %lld", got); goto after; }
             }
             want = (long long)m->len;
@@ -285,7 +336,9 @@ static void exec(const plan_t *p)
             if (want == (long long)m->len) probe_hit("absent_byte_search");
             if (got != want) sim_fail("MISMATCH(query)", "%s returned %lld, ideal sequence says %lld (len %zu, needle %zu)", k, got, want, m->len, nl);
         } else if (!strcmp(k, "subbuff") || !strcmp(k, "subbuff_ptr")) {
-            long long idx = o->a[1], cnt = o->a[2], L = (long long)m->len;
+            long long L = (long long)m->len;
+            int symb = o->na > 3 && o->a[3] == 1;
+            long long idx = symb ? sym_pos(o->a[1], L) : o->a[1], cnt = symb ? sym_cnt(o->a[2], L, idx) : o->a[2];
             int expect_ok;
             spif_mbuff_t sub = NULL; unsigned char *sp = NULL;
             if (k[7] == 0) sub = viaclass ? (spif_mbuff_t)VIA(subbuff)(self, (spif_memidx_t)idx, (spif_memidx_t)cnt) : spif_mbuff_subbuff(self, idx, cnt);
@@ -311,7 +364,7 @@ static void exec(const plan_t *p)
             long long n = o->a[2];
             spif_mbuff_t other = (os >= 0 && os < NSLOT) ? objs[os] : NULL;
             spif_cmp_t got;
-            if (k[0] == 'c') got = viaclass ? (spif_cmp_t)(long)VIA(cmp)(self, other) : spif_mbuff_cmp(self, other);
+            if (k[0] == 'c') got = o->a[2] == 2 && other ? (viaclass ? SPIF_OBJ_COMP(self, other) : spif_mbuff_comp(self, other)) : viaclass ? (spif_cmp_t)(long)VIA(cmp)(self, other) : spif_mbuff_cmp(self, other);      /* (a2 == 2: the object-level comparison) */
             else { if (n < 0) goto skip; got = viaclass ? (spif_cmp_t)(long)VIA(ncmp)(self, other, (spif_memidx_t)n) : spif_mbuff_ncmp(self, other, n); }
             if (!other) { if (got != SPIF_CMP_GREATER) sim_fail("MISMATCH(query)", "%s(NULL) returned %d, NULL orders before every object", k, (int)got); }
             else if (k[0] == 'c') {
@@ -320,24 +373,30 @@ static void exec(const plan_t *p)
                 if (got != to_cmp(want)) sim_fail("MISMATCH(query)", "cmp returned %d, ideal sequences (len %zu vs %zu) compare %d", (int)got, m->len, mod[os].len, want);
             } else {
                 size_t mn = m->len < mod[os].len ? m->len : mod[os].len;
-                if ((size_t)n <= mn) {               /* beyond the shorter buffer the count semantics are don't-care (B.2) */
+                if ((size_t)n <= mn) {
                     int c = n ? memcmp(m->b, mod[os].b, (size_t)n) : 0;
                     if (got != to_cmp(c)) sim_fail("MISMATCH(query)", "ncmp(%lld) returned %d, ideal prefixes compare %d", n, (int)got, c);
+                } else {
+                    /* a count beyond the shorter buffer: how the missing bytes count is don't-care (B.2) -- unless the bytes both have
+                       already differ, which settles the order under every reading */
+                    int c = mn ? memcmp(m->b, mod[os].b, mn) : 0;
+                    if (c && got != to_cmp(c)) sim_fail("MISMATCH(query)", "ncmp(%lld) returned %d although the first %zu bytes already compare %d", n, (int)got, mn, c);
                 }
             }
         } else if (!strcmp(k, "cmp_ptr") || !strcmp(k, "ncmp_ptr")) {
             spif_cmp_t got;
-            if (k[0] == 'c') got = spif_mbuff_cmp_with_ptr(self, arg, (spif_memidx_t)o->slen);
-            else got = spif_mbuff_ncmp_with_ptr(self, arg, (spif_memidx_t)o->slen);
+            if (k[0] == 'c') got = spif_mbuff_cmp_with_ptr(self, arg, (spif_memidx_t)alen);
+            else got = spif_mbuff_ncmp_with_ptr(self, arg, (spif_memidx_t)alen);
             if (!arg) { if (got != SPIF_CMP_GREATER) sim_fail("MISMATCH(query)", "%s(NULL) returned %d", k, (int)got); }
             else {
                 /* [T] the first len bytes of the object against the len bytes given; an object shorter than len is a proper prefix and sorts first */
-                size_t n = o->slen < m->len ? o->slen : m->len;
-                int want = lexcmp(m->b, n, arg, o->slen);
-                if (m->len < o->slen) probe_hit("cmp_different_lengths");
+                size_t n = alen < m->len ? alen : m->len;
+                int want = lexcmp(m->b, n, arg, alen);
+                if (m->len < alen) probe_hit("cmp_different_lengths");
                 /* more bytes requested than the object holds: the pinned suite (sprintf test) compares into the spare capacity,
                    the ideal sequence says LESS -- value is don't-care there, memory safety is still demanded */
-                if (o->slen <= m->len && got != to_cmp(want)) sim_fail("MISMATCH(query)", "%s returned %d, ideal sequences (len %zu vs %zu given) compare %d", k, (int)got, m->len, o->slen, want);
+                if (alen <= m->len && got != to_cmp(want)) sim_fail("MISMATCH(query)", "%s returned %d, ideal sequences (len %zu vs %zu given) compare %d", k, (int)got, m->len, alen, want);
+                if (alen > m->len && m->len) { int c = memcmp(m->b, arg, m->len); if (c && got != to_cmp(c)) sim_fail("MISMATCH(query)", "%s returned %d although the first %zu bytes already compare %d", k, (int)got, m->len, c); }
             }
         } else if (!strcmp(k, "dup")) {
             int d = (int)o->a[1];
@@ -429,7 +488,8 @@ static void gen_ctor(plan_t *p, rng_t *r, int slot, int isnew, int hard, int big
         o = plan_op(p, 0, kind, 3, (long)slot, (long)seekable, (long)(seekable && rng_chance(r, 1, 6) ? rng_below(r, (uint32_t)n + 1) : 0));
         op_str(o, gbuf, n);
         { int nf = rng_range(r, 0, 8); static const int lims[] = { 1, 2, 3, 100, 1000, 4095, 4096, 4097 };
-          for (int i = 0; i < nf; i++) op_fault(o, rng_chance(r, 1, 3) ? FAULT(FC_READ, FO_FULL, 0) : FAULT(FC_READ, FO_SHORT, lims[rng_below(r, 8)])); }
+          for (int i = 0; i < nf; i++) op_fault(o, rng_chance(r, 1, 3) ? FAULT(FC_READ, FO_FULL, 0) : FAULT(FC_READ, FO_SHORT, lims[rng_below(r, 8)]));
+          if (hard && rng_chance(r, 1, 3)) op_fault(o, FAULT(FC_READ, FO_EIO, 0)); }              /* the stream fails after nf reads */
         glen[slot] = n;
     } else {
         int seekable = rng_chance(r, 1, 2);
@@ -438,6 +498,7 @@ static void gen_ctor(plan_t *p, rng_t *r, int slot, int isnew, int hard, int big
         if (rng_chance(r, 1, 12)) { n = 4096; for (size_t j = 0; j < n; j++) gbuf[j] = (unsigned char)rng_below(r, 256); }
         o = plan_op(p, 0, kind, 3, (long)slot, (long)seekable, (long)(seekable && rng_chance(r, 1, 6) ? rng_below(r, (uint32_t)n + 1) : 0));
         op_str(o, gbuf, n);
+        if (seekable && hard && rng_chance(r, 1, 3)) op_fault(o, FAULT(FC_READ, FO_EIO, 0));          /* a regular file that cannot be read */
         if (!seekable) {
             int nf = rng_range(r, 0, 10);
             static const int lims[] = { 1, 2, 3, 7, 100, 1000, 4095, 4096, 4097, 5000 };
@@ -480,18 +541,20 @@ static void gen(plan_t *p, rng_t *r)
             plan_op(p, 0, rng_chance(r, 1, 2) ? "append" : "prepend", 2, (long)s, (long)os);
             if (os >= 0) glen[s] += glen[os];
         } else if (k < 30) {
-            o = plan_op(p, 0, rng_chance(r, 1, 2) ? "append_ptr" : "prepend_ptr", 1, (long)s);
+            o = plan_op(p, 0, rng_chance(r, 1, 2) ? "append_ptr" : "prepend_ptr", 3, (long)s, 0L, rng_chance(r, 1, 3) ? (long)rng_range(r, 1, 5000) : 0L);
             if (!rng_chance(r, 1, 20)) { n = gen_bytes(r, gbuf, sizeof(gbuf), rng_chance(r, 1, 25) ? 1 : rng_chance(r, 1, 8) ? 3 : 0); op_str(o, gbuf, n); glen[s] += n; }
         } else if (k < 34) plan_op(p, 0, "clear", 2, (long)s, (long)rng_below(r, 256));
         else if (k < 38) plan_op(p, 0, "reverse", 1, (long)s);
         else if (k < 44) plan_op(p, 0, "trim", 1, (long)s);
         else if (k < 54) {
             long idx = gen_index(r, glen[s]), cnt = rng_chance(r, 1, 2) ? (long)rng_below(r, 4) : gen_index(r, glen[s]);
-            if (rng_chance(r, 1, 2)) { int os = pick(r, 1); if (os == s && !rng_chance(r, 1, 3)) os = -1; plan_op(p, 0, "splice", 4, (long)s, idx, cnt, (long)os); }
-            else { o = plan_op(p, 0, "splice_ptr", 3, (long)s, idx, cnt); if (!rng_chance(r, 1, 8)) { n = gen_bytes(r, gbuf, sizeof(gbuf), 0); op_str(o, gbuf, n); } }
+            int symb = rng_chance(r, 1, 2);            /* position and count as classes relative to the real length */
+            if (symb) { idx = (long)rng_below(r, 12) + 12 * (long)rng_below(r, 5000); cnt = (long)rng_below(r, 10) + 10 * (long)rng_below(r, 5000); }
+            if (rng_chance(r, 1, 2)) { int os = pick(r, 1); if (os == s && !rng_chance(r, 1, 3)) os = -1; plan_op(p, 0, "splice", 5, (long)s, idx, cnt, (long)os, (long)symb); }
+            else { o = plan_op(p, 0, "splice_ptr", 5, (long)s, idx, cnt, 0L, (long)symb); if (!rng_chance(r, 1, 8)) { n = gen_bytes(r, gbuf, sizeof(gbuf), 0); op_str(o, gbuf, n); } }
         } else if (k < 58) {
             o = plan_op(p, 0, "sprintf", 3, (long)s, (long)rng_below(r, 5), (long)(int)rng_u64(r));
-            n = (size_t)rng_range(r, 0, 20);
+            n = rng_chance(r, 1, 6) ? (size_t)rng_range(r, 4000, 12000) : (size_t)rng_range(r, 0, 20);      /* one in six formats several kilobytes */
             for (size_t j = 0; j < n; j++) gbuf[j] = (unsigned char)('a' + rng_below(r, 26));
             op_str(o, gbuf, n);
             glen[s] = n + 4;
@@ -500,18 +563,19 @@ static void gen(plan_t *p, rng_t *r)
         else if (k < 72) plan_op(p, 0, rng_chance(r, 1, 2) ? "index" : "rindex", 2, (long)s, (long)(rng_chance(r, 1, 2) ? 'a' + rng_below(r, 6) : rng_below(r, 256)));
         else if (k < 78) {
             if (rng_chance(r, 1, 2)) plan_op(p, 0, "find", 2, (long)s, (long)(rng_chance(r, 1, 10) ? -1 : pick(r, 1)));
-            else { o = plan_op(p, 0, "find_ptr", 1, (long)s); if (!rng_chance(r, 1, 15)) { n = gen_bytes(r, gbuf, 5, 0); op_str(o, gbuf, n); } }
-        } else if (k < 84) plan_op(p, 0, rng_chance(r, 1, 2) ? "subbuff" : "subbuff_ptr", 3, (long)s, gen_index(r, glen[s]), rng_chance(r, 1, 2) ? (long)rng_below(r, 5) - 1 : gen_index(r, glen[s]));
+            else if (rng_chance(r, 1, 2)) { o = plan_op(p, 0, "find_ptr", 2, (long)s, (long)(1 + rng_below(r, 7)) + 8 * (long)rng_below(r, 5000)); op_str(o, "x", 1); }      /* needle taken from the buffer */
+            else { o = plan_op(p, 0, "find_ptr", 3, (long)s, 0L, rng_chance(r, 1, 3) ? (long)rng_range(r, 1, 5000) : 0L); if (!rng_chance(r, 1, 15)) { n = gen_bytes(r, gbuf, 5, 0); op_str(o, gbuf, n); } }
+        } else if (k < 84) { if (rng_chance(r, 1, 2)) plan_op(p, 0, rng_chance(r, 1, 2) ? "subbuff" : "subbuff_ptr", 4, (long)s, (long)rng_below(r, 12) + 12 * (long)rng_below(r, 5000), (long)rng_below(r, 10) + 10 * (long)rng_below(r, 5000), 1L);
+          else plan_op(p, 0, rng_chance(r, 1, 2) ? "subbuff" : "subbuff_ptr", 3, (long)s, gen_index(r, glen[s]), rng_chance(r, 1, 2) ? (long)rng_below(r, 5) - 1 : gen_index(r, glen[s])); }
         else if (k < 93) {
             int v = (int)rng_below(r, 4);
-            if (v == 0) plan_op(p, 0, "cmp", 3, (long)s, (long)(rng_chance(r, 1, 10) ? -1 : pick(r, 1)), 0L);
+            if (v == 0) plan_op(p, 0, "cmp", 3, (long)s, (long)(rng_chance(r, 1, 10) ? -1 : pick(r, 1)), rng_chance(r, 1, 4) ? 2L : 0L);
             else if (v == 1) plan_op(p, 0, "ncmp", 3, (long)s, (long)(rng_chance(r, 1, 10) ? -1 : pick(r, 1)), (long)rng_below(r, (uint32_t)glen[s] + 4));
             else {
-                o = plan_op(p, 0, v == 2 ? "cmp_ptr" : "ncmp_ptr", 1, (long)s);
-                if (!rng_chance(r, 1, 10)) {
-                    /* often a prefix / extension of what the object probably holds, to hit the equal-prefix case */
-                    n = gen_bytes(r, gbuf, 40, 0);
-                    op_str(o, gbuf, n);
+                if (rng_chance(r, 1, 2)) { o = plan_op(p, 0, v == 2 ? "cmp_ptr" : "ncmp_ptr", 2, (long)s, (long)(1 + rng_below(r, 7)) + 8 * (long)rng_below(r, 5000)); op_str(o, "x", 1); }   /* bytes related to the buffer's own */
+                else {
+                    o = plan_op(p, 0, v == 2 ? "cmp_ptr" : "ncmp_ptr", 3, (long)s, 0L, rng_chance(r, 1, 3) ? (long)rng_range(r, 1, 5000) : 0L);
+                    if (!rng_chance(r, 1, 10)) { n = gen_bytes(r, gbuf, 40, 0); op_str(o, gbuf, n); }
                 }
             }
         } else if (k < 97) { int d = pick(r, 0); if (d >= 0) { plan_op(p, 0, "dup", 2, (long)s, (long)d); gexists[d] = 1; glen[d] = glen[s]; gdone[d] = 0; } }
